@@ -1,6 +1,7 @@
 import MongoModel.Wire
 import MongoModel.Pipeline
 import Spec.PipelineDomain
+import Spec.PipelineExt
 open MongoModel MongoModel.Wire MongoModel.Pipe MongoModel.Spec.Pipe
 
 namespace Driver
@@ -47,6 +48,18 @@ def handleC03i (ts : List String) : Option (List String) :=
          | some (.docs out) => showVals out
          | some .rejected => ["!Rejected"]
          | none => ["?nospec"]) ++ ["|"] ++ (pipelineReasonsV p docs).eraseDups)
+    | none => some ["?parse"]
+  | "c03b" :: r =>
+    -- the oracle of a single `$bucket` stage: Spec (documents or `?nospec`) | the reasons
+    match c03Parse r with
+    | some (db, coll, p0) =>
+      (match normPipeline p0 with
+       | [.doc [("$bucket", opts)]] =>
+         let docs := db.get coll
+         some ((match specBucketStage opts docs with
+                | some out => showVals out
+                | none => ["?nospec"]) ++ ["|"] ++ (bucketReasons opts docs).eraseDups)
+       | _ => some ["?parse"])
     | none => some ["?parse"]
   | "c03i" :: r =>
     match c03Parse r with
